@@ -304,7 +304,7 @@ class VariableCovarianceGaussian(Likelihood):
         """
         # TODO: test by drawing synthetic data that actually follows the
         # noise-cov and then average over it
-        fct = 1 + self.iscomplex
+        fct = jnp.sqrt(2) ** self.iscomplex
         res = (
             primals[1] * (primals[0] - self.data),
             fct * tree_map(jnp.log, primals[1]),
